@@ -152,6 +152,35 @@ def run(p, led, tier):
     else:
         led.ok("C06-R2", key, where(agg, agg.node), f"{n2} ballots with ≥1 block over thresholds None/0.3/0.75/3: never reached")
 
+    # ---------------- R7 a fractional threshold is a *share* of the colony: never reached by fewer permits than that share
+    from fractions import Fraction as _F
+    led.rule("C06-R7", "with a fractional threshold f the count strategy is never reached by k permit votes out of n when k/n < f (colonies of 1..7)", 3)
+    for cls_, thr, label in ((qs, 0.3, "QuorumSensing THRESHOLD 0.3"), (qs, 0.5, "QuorumSensing THRESHOLD 0.5"), (qs, 0.7, "QuorumSensing THRESHOLD 0.7"), (eq, None, "EmergencyQuorum (its own fraction)")):
+        frac = _F(str(thr)) if thr is not None else None
+        bad7, n7 = [], 0
+        for n in range(1, 8):
+            for k in range(0, n + 1):
+                def go7(o, _n=n, _k=k):
+                    it = Interp(p, o)
+                    qo = mk_quorum(it, cls_, "THRESHOLD", thr, _n)
+                    vs = ballots(it, (_k, _n - _k, 0, 0), 1.0, 1.0)
+                    r = it.call_fi(agg, [qo, vs], {})
+                    f_ = qo.fields.get("custom_threshold")
+                    return (r.fields["reached"], f_)
+                for _, (reached, f_) in explore(go7, max_paths=50):
+                    n7 += 1
+                    fr = frac if frac is not None else (_F(str(f_)) if isinstance(f_, float) and 0 < f_ < 1 else None)
+                    if fr is None:
+                        continue
+                    if reached is True and _F(k, n) < fr:
+                        bad7.append(f"{k} of {n} permit ({float(_F(k, n)):.3f} < {float(fr)}): reached")
+        key = f"{label} ▸ share semantics"
+        if bad7:
+            led.fail("C06-R7", key, where(agg, agg.node), f"{len(bad7)} ballot(s) reach the quorum below the configured share, e.g. {bad7[0]}", path=bad7[:6],
+                     witness="EmergencyQuorum with 4 voters: one PERMIT and three BLOCK → PERMIT (25 % < 30 %)")
+        else:
+            led.ok("C06-R7", key, where(agg, agg.node), f"{n7} ballots (n = 1..7, k = 0..n): reached ⇒ k/n ≥ the fraction")
+
     # ---------------- R6 count criterion follows the *current* colony (membership changed through the API after configuration)
     import math as _math
     add = p.find_method(qs, "add_agent")
